@@ -136,13 +136,40 @@ func Authenticate(ab *authboss.Authboss, w http.ResponseWriter, req **http.Reque
 		return errors.Wrap(err, "failed to save remember me token")
 	}
 
-	*req = (*req).WithContext(context.WithValue((*req).Context(), authboss.CTXKeyPID, pid))
+	ctx := context.WithValue((*req).Context(), authboss.CTXKeyPID, pid)
+	// The session this request read predates the puts below, show the rest
+	// of the request that it is only half-authed or handlers that require
+	// full auth would serve this very request.
+	state, _ := ctx.Value(authboss.CTXKeySessionState).(authboss.ClientState)
+	ctx = context.WithValue(ctx, authboss.CTXKeySessionState, halfAuthedState{cs: state, pid: pid})
+	*req = (*req).WithContext(ctx)
 	authboss.PutSession(w, authboss.SessionKey, pid)
 	authboss.PutSession(w, authboss.SessionHalfAuthKey, "true")
 	authboss.DelCookie(w, authboss.CookieRemember)
 	authboss.PutCookie(w, authboss.CookieRemember, token)
 
 	return nil
+}
+
+// halfAuthedState is the session state of a request that has just been
+// authenticated by its remember cookie.
+type halfAuthedState struct {
+	cs  authboss.ClientState
+	pid string
+}
+
+func (h halfAuthedState) Get(key string) (string, bool) {
+	switch key {
+	case authboss.SessionKey:
+		return h.pid, true
+	case authboss.SessionHalfAuthKey:
+		return "true", true
+	}
+
+	if h.cs == nil {
+		return "", false
+	}
+	return h.cs.Get(key)
 }
 
 // AfterPasswordReset is called after the password has been reset, since
